@@ -45,10 +45,10 @@ let cmd_within = function
       sx_of_res (List.map (fun p -> c11_within (c11_keys m tr p) rk) (pts_of_sx q))
   | _ -> failwith "within"
 
-(* (num T tree sys metric r) -> (radius in tree units, key threshold) *)
+(* (num T pi tree sys metric r) -> (radius in tree units, key threshold) *)
 let cmd_rkey = function
-  | L [num; t; tr; s; m; r] ->
-      let ru = c11_radius_units (z_of_sx num) (z_of_sx t) (tree_of_sx tr) (sys_of_sx s) (z_of_sx r) in
+  | L [num; t; pi; tr; s; m; r] ->
+      let ru = c11_radius_units (z_of_sx num) (z_of_sx t) (z_of_sx pi) (tree_of_sx tr) (sys_of_sx s) (z_of_sx r) in
       L [sx_of_z ru; sx_of_z (c11_rkey (metric_of_sx m) ru)]
   | _ -> failwith "rkey"
 
@@ -64,11 +64,11 @@ let cmd_query = function
        | None -> L [A "0"])
   | _ -> failwith "query"
 
-(* (num T tree grid kind sys metric queries rad r) -> (1 result out_in_degrees) | (0) *)
+(* (num T pi tree grid kind sys metric queries rad r) -> (1 result out_in_degrees) | (0) *)
 let cmd_query_radius = function
-  | L [num; t; tr; g; kd; s; m; q; rad; r] ->
+  | L [num; t; pi; tr; g; kd; s; m; q; rad; r] ->
       let s' = sys_of_sx s in
-      (match c11_query_radius (z_of_sx num) (z_of_sx t) (tree_of_sx tr) (grid_of_sx g) (kind_of_sx kd) s'
+      (match c11_query_radius (z_of_sx num) (z_of_sx t) (z_of_sx pi) (tree_of_sx tr) (grid_of_sx g) (kind_of_sx kd) s'
                (metric_of_sx m) (pts_of_sx q) (bool_of_sx rad) (z_of_sx r) with
        | Some res -> L [A "1"; sx_of_res res; sx_of_bool (c11_out_in_degrees s' (bool_of_sx rad))]
        | None -> L [A "0"])
